@@ -14,9 +14,11 @@ class Desc:
     """descriptor of one pool entry (a file that can appear in a module directory)"""
 
     def __init__(self, id, kind="mod", type="misc", name=None, prio=100, pers=DSH | PCP, opts=(), init=0,
-                 rcmd=False, no_opts=False, has_prio=True):
+                 rcmd=False, no_opts=False, has_prio=True, link_to=None, outside=False):
         self.id = id
-        self.kind = kind          # mod | text (dlopen fails) | noinfo | notype | noname | dir | ghost
+        self.kind = kind          # mod | text (dlopen fails) | noinfo | notype | noname | dir | ghost | link
+        self.link_to = link_to    # kind link: a second NAME (symbolic link in the pool directory) for that pool module
+        self.outside = outside    # the object lives in another directory, the pool entry is a symbolic link to it
         self.type = type
         self.name = name
         self.prio = prio
@@ -92,6 +94,13 @@ def make_pool():
     a(Desc("m29", name="omega", prio=100, opts=[("O", 0, B)], init=-1))
     a(Desc("m30", name="lambda", prio=100, opts=[("P", 0, B)]))           # duplicate of option-less lambda, equal
     a(Desc("m31", name="beta", prio=170, opts=[("U", 0, B)]))             # third beta, highest
+    a(Desc("m32", name="zz", opts=[("n", 0, B)]))                         # wants the 'n' that eta {n, q} must not keep
+    a(Desc("m33", name="aaa", prio=100, opts=[("H", 0, B), ("o", 0, B)]))  # first by name; chi/theta/iota/kappa later
+    a(Desc("m34", name="outer", opts=[("1", 0, B)], outside=True))   # symlink to an object outside the directory
+    a(Desc("s01", kind="link", link_to="m06"))                            # second name for zeta's file
+    # priorities at the ends of int: _cmp_f subtracts them
+    a(Desc("m35", name="pmax", prio=2147483647, opts=[("2", 0, B)]))
+    a(Desc("m36", name="pmin", prio=-2147483648, opts=[("2", 0, B), ("a", 0, B)]))
     # ---- rcmd modules (fake transports) ---------------------------------------------------------
     a(Desc("r01", type="rcmd", name="t1", rcmd=True))
     a(Desc("r02", type="rcmd", name="t2", rcmd=True))
@@ -122,8 +131,17 @@ class Pool:
         self.descs = make_pool()
         self.by_id = {d.id: d for d in self.descs}
         self.by_file = {d.file: d for d in self.descs}
+        for d in self.descs:
+            if d.kind == "link":
+                t = self.by_id[d.link_to]
+                d.type, d.name, d.prio, d.has_prio, d.pers, d.opts, d.init, d.no_opts = \
+                    t.type, t.name, t.prio, t.has_prio, t.pers, list(t.opts), t.init, t.no_opts
         self.root = os.path.join(ctx.scratch, "mp")
         self.dir = os.path.join(self.root, "lvl1", "lvl2", "pool")
+        self.outside = os.path.join(self.root, "outside")
+        # a symbolic link to the pool directory that lives in a world-writable directory without the sticky bit:
+        # the ancestors pdsh walks (dir/.., dir/../..) are those of the link's TARGET
+        self.linkdir = os.path.join(self.root, "ww", "poollink")
         self.shim = os.path.join(ctx.scratch, "preload_shim.so")
         self.log = os.path.join(ctx.scratch, "preload.log")
 
@@ -144,7 +162,19 @@ class Pool:
         with open(vmap, "w") as f:
             f.write("{ global: pdsh_module_info; pdsh_module_priority; local: *; };\n")
 
+        os.makedirs(self.outside, exist_ok=True)
+        os.chmod(self.outside, 0o755)
+        os.makedirs(os.path.dirname(self.linkdir), exist_ok=True)
+        os.chmod(os.path.dirname(self.linkdir), 0o777)
+        if not os.path.islink(self.linkdir):
+            os.symlink(self.dir, self.linkdir)
+
         def one(d):
+            if d.kind == "link":
+                lp = os.path.join(self.dir, d.file)
+                if not os.path.islink(lp):
+                    os.symlink(self.by_id[d.link_to].file, lp)
+                return None
             if d.kind == "text":
                 with open(os.path.join(self.dir, d.file), "w") as f:
                     f.write("# not a shared object\n")
@@ -157,9 +187,14 @@ class Pool:
             c = os.path.join(src, d.id + ".c")
             with open(c, "w") as f:
                 f.write(d.source())
+            target = os.path.join(self.outside if d.outside else self.dir, d.file)
             q = run(["gcc", "-shared", "-fPIC", "-O0", "-w", "-DHAVE_CONFIG_H", "-D_GNU_SOURCE", "-I" + REPO,
                      "-I" + REPO + "/src/pdsh", "-I" + REPO + "/src/common", "-I" + HARNESS, c, "-o",
-                     os.path.join(self.dir, d.file), "-Wl,--version-script=" + vmap])
+                     target, "-Wl,--version-script=" + vmap])
+            if q.returncode == 0 and d.outside:
+                os.chmod(target, 0o644)
+                if not os.path.islink(os.path.join(self.dir, d.file)):
+                    os.symlink(os.path.join("..", "..", "..", "outside", d.file), os.path.join(self.dir, d.file))
             return None if q.returncode == 0 else d.id + ": " + q.stderr.decode("utf-8", "replace")[-800:]
         with ThreadPoolExecutor(8) as ex:
             errs = [e for e in ex.map(one, self.descs) if e]
@@ -167,7 +202,7 @@ class Pool:
             ctx.broken.append(("C-BROKEN", "harness build module pool", "\n".join(errs)[:2000]))
             return False
         for d in self.descs:
-            if d.kind not in ("dir", "ghost"):
+            if d.kind not in ("dir", "ghost", "link") and not d.outside:
                 os.chmod(os.path.join(self.dir, d.file), 0o644)
         return True
 
